@@ -66,3 +66,18 @@ impl LuaIndex for LuaSignatureIndex {
         self.in_file_signatures.clear();
     }
 }
+
+#[cfg(emmyluals_emmylua_analyzer_rust_verif)]
+impl LuaSignatureIndex {
+    /// Verification hook: entry counts of every container of this index.
+    pub fn verif_sizes(&self) -> Vec<(&'static str, usize)> {
+        vec![
+            ("signatures", self.signatures.len()),
+            ("in_file_signatures", self.in_file_signatures.len()),
+            (
+                "in_file_signatures/ids",
+                self.in_file_signatures.values().map(|v| v.len()).sum(),
+            ),
+        ]
+    }
+}
